@@ -26,22 +26,24 @@ def scatter (s : Nat) (x : Bytes) : Bytes :=
 def xorLast (t : Bytes) (c : UInt8) : Bytes := t.set 15 (t.getD 15 0 ^^^ c)
 
 /-- `milenageF1`: returns what is written to (mac_a, mac_s) when the buffer is not nil -/
-def milenageF1 (P : Prims) (opc k rand sqn amf : Bytes) : Res (Bytes × Bytes) := do
+def milenageF1 (P : Prims) (opc k rand sqn amf : Bytes) : Res (Bytes × Bytes) :=
   -- rijndaelInput[i] = _rand[i] ^ opc[i]
-  if rand.length < 16 ∨ opc.length < 16 then throw .panic
-  newCipher k
-  let tmp1 := P.aes k (xor16 rand opc)
-  -- copy(tmp2[0:], sqn[0:6]); copy(tmp2[6:], amf[0:2]); copy(tmp2[8:], tmp2[0:8])
-  if sqn.length < 6 then throw .panic
-  if amf.length < 2 then throw .panic
-  let tmp2 := sqn.take 6 ++ amf.take 2 ++ (sqn.take 6 ++ amf.take 2)
-  -- tmp3[(i+8)%16] = tmp2[i] ^ opc[i]
-  let tmp3 := scatter 8 (xor16 tmp2 opc)
-  -- tmp3[i] ^= tmp1[i]
-  let tmp3 := xorBytes tmp3 tmp1
-  -- tmp1 = E_K(tmp3); tmp1[i] ^= opc[i]
-  let out := xorBytes (P.aes k tmp3) (opc.take 16)
-  return (out.take 8, out.drop 8)
+  if rand.length < 16 ∨ opc.length < 16 then .error .panic else
+  match newCipher k with
+  | .error e => .error e
+  | .ok () =>
+    let tmp1 := P.aes k (xor16 rand opc)
+    -- copy(tmp2[0:], sqn[0:6]); copy(tmp2[6:], amf[0:2]); copy(tmp2[8:], tmp2[0:8])
+    if sqn.length < 6 then .error .panic else
+    if amf.length < 2 then .error .panic else
+    let tmp2 := sqn.take 6 ++ amf.take 2 ++ (sqn.take 6 ++ amf.take 2)
+    -- tmp3[(i+8)%16] = tmp2[i] ^ opc[i]
+    let tmp3 := scatter 8 (xor16 tmp2 opc)
+    -- tmp3[i] ^= tmp1[i]
+    let tmp3 := xorBytes tmp3 tmp1
+    -- tmp1 = E_K(tmp3); tmp1[i] ^= opc[i]
+    let out := xorBytes (P.aes k tmp3) (opc.take 16)
+    .ok (out.take 8, out.drop 8)
 
 /-- the five optional outputs of `milenageF2345`; `none` = the buffer was nil -/
 structure F2345Out where
@@ -55,20 +57,22 @@ structure F2345Out where
 def opt (want : Bool) (v : Bytes) : Option Bytes := if want then some v else none
 
 /-- `milenageF2345(opc, k, _rand, res, ck, ik, ak, akstar)`; the Bool says whether the buffer is non-nil -/
-def milenageF2345 (P : Prims) (opc k rand : Bytes) (wRes wCk wIk wAk wAkstar : Bool) : Res F2345Out := do
-  if rand.length < 16 ∨ opc.length < 16 then throw .panic
-  newCipher k
-  let tmp2 := P.aes k (xor16 rand opc)
-  -- f2 and f5: tmp1[i] = tmp2[i] ^ opc[i]; tmp1[15] ^= 1; tmp3 = E_K(tmp1) ^ opc
-  let tmp3 := xorBytes (P.aes k (xorLast (xor16 tmp2 opc) 1)) (opc.take 16)
-  -- f3: tmp1[(i+12)%16] = tmp2[i] ^ opc[i]; tmp1[15] ^= 2
-  let ck := xorBytes (P.aes k (xorLast (scatter 12 (xor16 tmp2 opc)) 2)) (opc.take 16)
-  -- f4: tmp1[(i+8)%16] = tmp2[i] ^ opc[i]; tmp1[15] ^= 4
-  let ik := xorBytes (P.aes k (xorLast (scatter 8 (xor16 tmp2 opc)) 4)) (opc.take 16)
-  -- f5*: tmp1[(i+4)%16] = tmp2[i] ^ opc[i]; tmp1[15] ^= 8; akstar[i] = tmp1[i] ^ opc[i] for i < 6
-  let akstar := xorBytes ((P.aes k (xorLast (scatter 4 (xor16 tmp2 opc)) 8)).take 6) (opc.take 6)
-  return { res := opt wRes (tmp3.drop 8), ak := opt wAk (tmp3.take 6),
-           ck := opt wCk ck, ik := opt wIk ik, akstar := opt wAkstar akstar }
+def milenageF2345 (P : Prims) (opc k rand : Bytes) (wRes wCk wIk wAk wAkstar : Bool) : Res F2345Out :=
+  if rand.length < 16 ∨ opc.length < 16 then .error .panic else
+  match newCipher k with
+  | .error e => .error e
+  | .ok () =>
+    let tmp2 := P.aes k (xor16 rand opc)
+    -- f2 and f5: tmp1[i] = tmp2[i] ^ opc[i]; tmp1[15] ^= 1; tmp3 = E_K(tmp1) ^ opc
+    let tmp3 := xorBytes (P.aes k (xorLast (xor16 tmp2 opc) 1)) (opc.take 16)
+    -- f3: tmp1[(i+12)%16] = tmp2[i] ^ opc[i]; tmp1[15] ^= 2
+    let ck := xorBytes (P.aes k (xorLast (scatter 12 (xor16 tmp2 opc)) 2)) (opc.take 16)
+    -- f4: tmp1[(i+8)%16] = tmp2[i] ^ opc[i]; tmp1[15] ^= 4
+    let ik := xorBytes (P.aes k (xorLast (scatter 8 (xor16 tmp2 opc)) 4)) (opc.take 16)
+    -- f5*: tmp1[(i+4)%16] = tmp2[i] ^ opc[i]; tmp1[15] ^= 8; akstar[i] = tmp1[i] ^ opc[i] for i < 6
+    let akstar := xorBytes ((P.aes k (xorLast (scatter 4 (xor16 tmp2 opc)) 8)).take 6) (opc.take 6)
+    .ok { res := opt wRes (tmp3.drop 8), ak := opt wAk (tmp3.take 6),
+          ck := opt wCk ck, ik := opt wIk ik, akstar := opt wAkstar akstar }
 
 /-- exported wrapper `F1(opc, k, _rand, sqn, amf, mac_a, mac_s)` -/
 def F1 (P : Prims) (opc k rand sqn amf : Bytes) : Res (Bytes × Bytes) := milenageF1 P opc k rand sqn amf
@@ -78,15 +82,12 @@ def F2345 (P : Prims) (opc k rand : Bytes) (wRes wCk wIk wAk wAkstar : Bool) : R
   milenageF2345 P opc k rand wRes wCk wIk wAk wAkstar
 
 /-- `GenerateOPC(k, op)`: `block.Encrypt(opc, op)` needs a full input block, then `opc[i] ^= op[i]` -/
-def GenerateOPC (P : Prims) (k op : Bytes) : Res Bytes := do
-  newCipher k
-  if op.length < 16 then throw .panic
-  return xorBytes (P.aes k (op.take 16)) (op.take 16)
-
-/-- a NewCipher error inside a callee is turned into a return code by the callers; a panic propagates -/
-def isErr {α} : Res α → Bool
-  | .error .error => true
-  | _ => false
+def GenerateOPC (P : Prims) (k op : Bytes) : Res Bytes :=
+  match newCipher k with
+  | .error e => .error e
+  | .ok () =>
+    if op.length < 16 then .error .panic else
+    .ok (xorBytes (P.aes k (op.take 16)) (op.take 16))
 
 structure GenOut where
   resLen : Nat
@@ -115,14 +116,15 @@ def MilenageGenerate (P : Prims) (opc amf k sqn rand : Bytes) (resLen : Nat) : R
       -- autn[i] = sqn[i] ^ ak[i] (i < 6); copy(autn[6:], amf[0:2]); copy(autn[8:], mac_a[0:8])
       .ok ⟨8, xorBytes (sqn.take 6) ak ++ amf.take 2 ++ macA, o.ik.getD [], o.ck.getD [], ak, o.res.getD []⟩
 
-/-- `os_memcmp(a, b, num)` exactly as written: the result is minus/plus the INDEX of the first difference -/
+/-- `os_memcmp(a, b, num)`: -1 / 1 at the first differing octet, 0 when the first `num` octets agree
+    (before the F3 repair the result was minus/plus the INDEX of that octet, hence 0 for a difference in octet 0) -/
 def osMemcmpFrom (a b : Bytes) : Nat → Nat → Res Int
   | 0, _ => .ok 0
   | n + 1, i =>
     match a[i]?, b[i]? with
     | some x, some y =>
-      if x < y then .ok (-(i : Int))
-      else if x > y then .ok (i : Int)
+      if x < y then .ok (-1)
+      else if x > y then .ok 1
       else osMemcmpFrom a b n (i + 1)
     | _, _ => .error .panic
 
